@@ -786,6 +786,13 @@ func (t *FnTrans) intrinsicWrites(key string, c *ssa.CallCommon, l *loopInfo) bo
 			s = "Bool"
 		}
 		t.w(l, comp+".$a", "(Array Int "+s+")")
+		if t.viaCalls {
+			// written only at the owner of this field: loop frame for every other object
+			if _, nested := fa.X.(*ssa.FieldAddr); !nested {
+				t.noteVia(l, comp+".$a", fa.X)
+				t.viaNoted[comp+".$a"] = true
+			}
+		}
 		return true
 	}
 	kind := intrinsicKeys[key]
